@@ -360,6 +360,7 @@ class Ctx:
         self.level = level
         self.t0 = time.time()
         self.work = os.path.join(WORK, pid)
+        self.evid_dir = EVID   # extension checks (not tied to a listed property) write elsewhere
         shutil.rmtree(self.work, ignore_errors=True)
         os.makedirs(self.work, exist_ok=True)
         self.states = 0
@@ -448,8 +449,8 @@ class Ctx:
             "wall_s": round(time.time() - self.t0, 2),
             "violations": len(self.violations),
         }
-        os.makedirs(EVID, exist_ok=True)
-        with open(os.path.join(EVID, self.pid + ".json"), "w") as fh:
+        os.makedirs(self.evid_dir, exist_ok=True)
+        with open(os.path.join(self.evid_dir, self.pid + ".json"), "w") as fh:
             json.dump(ev, fh, indent=1, default=str)
         shutil.rmtree(self.work, ignore_errors=True)
         return 1 if self.violations else 0
